@@ -71,20 +71,25 @@ static void dirty_heap() {
 
 struct Exec {
   FILE* out;
-  CodeHolder code;
+  CodeHolder own_;
+  CodeHolder& code;            // own_, or a holder shared by consecutive executions (re-used through reset() + init())
   x86::Assembler a;
   vj::W w;
   bool dead = false;
 
   std::vector<std::string> names;
 
-  Exec(FILE* f, unsigned salt, unsigned seccopies) : out(f) {
+  Exec(FILE* f, unsigned salt, unsigned seccopies, CodeHolder* shared = nullptr, bool hard = false) : out(f), code(shared ? *shared : own_) {
     Environment env(Arch::kX64);
+    // a re-used holder must lay out the new program exactly like a fresh one: whatever flatten() / relocation left in the
+    // sections of the previous program (virtual sizes, offsets, the address table) is gone after reset() + init().
+    // (reinit() is left to C16: it keeps the base address of an earlier relocate_to_base(), a listed finding there.)
+    if (code.is_initialized()) code.reset(hard ? ResetPolicy::kHard : ResetPolicy::kSoft);
     code.init(env);
     code.attach(&a);
     Section* t = code.text_section();
     w.beginObj().kv("e", "Reset").kv("salt", (long long)salt).kv("seccopies", (long long)seccopies).key("text").beginObj().kv("name", cname(t)).kv("order", (long long)t->order()).kv("align", (long long)t->alignment())
-     .kv("off", off_of(t)).endObj().endObj().emit(out);
+     .kv("off", off_of(t)).kv("vs", clampi(t->virtual_size())).kv("buf", (long long)t->buffer_size()).endObj().kv("reused", shared != nullptr).endObj().emit(out);
   }
 
   void new_section(const std::string& name, uint32_t align, int32_t order) {
@@ -377,7 +382,9 @@ int main(int argc, char** argv) {
     for (unsigned x = 0; x < nexec; x++) {
       if (x % 64 == 63) dirty_heap();
       unsigned salt = (unsigned)r.below(1000);
-      Exec ex(out, salt, 2);
+      static CodeHolder shared;
+      bool reuse = r.chance(1, 2), hard = r.chance(1, 2);
+      Exec ex(out, salt, 2, reuse ? &shared : nullptr, hard);
       std::vector<std::string> used;
       unsigned nsec = (unsigned)r.below(13);
       unsigned maxlog = r.chance(1, 3) ? 16 : r.chance(1, 2) ? 6 : 3;          // alignments up to 64 KiB / 64 / 8
